@@ -541,6 +541,8 @@ fn ext_by_name(n: &str) -> Option<T22Ext> {
         "MetadataPointer" => T22Ext::MetadataPointer,
         "DefaultAccountState" => T22Ext::DefaultAccountState(2),
         "TransferHook" => T22Ext::TransferHook(Some(key("c16_fn_hook"))),
+        // a hook extension whose program id is unset (authority only, or program cleared later): present in the TLV, inert
+        "TransferHookNoProgram" => T22Ext::TransferHook(None),
         "GroupPointer" => T22Ext::GroupPointer,
         "Pausable" => T22Ext::Pausable,
         "GroupMemberPointer" => T22Ext::GroupMemberPointer,
@@ -772,6 +774,13 @@ fn tlv_layouts(n_others: usize) -> Vec<Vec<String>> {
         })
         .collect();
     out.extend(with_meta);
+    // the same layouts with the hook's program id unset, for every layout of at most four entries that carries a hook
+    let with_inert: Vec<Vec<String>> = out
+        .iter()
+        .filter(|v| v.len() <= 4 && v.iter().any(|n| n == "TransferHook"))
+        .map(|v| v.iter().map(|n| if n == "TransferHook" { "TransferHookNoProgram".to_string() } else { n.clone() }).collect())
+        .collect();
+    out.extend(with_inert);
     out
 }
 
